@@ -267,7 +267,10 @@ class DotProduct(Expression):
 
         result: list[Expression] = []
         for var in variables:
-            if var in left_lookup:
+            if var in left_lookup and var in right_lookup:
+                # overlapping vectors (e.g. x[0:2].dot(x[1:3])): both partners contribute
+                result.append(BinaryOp(left_lookup[var], right_lookup[var], "+"))
+            elif var in left_lookup:
                 result.append(left_lookup[var])
             elif var in right_lookup:
                 result.append(right_lookup[var])
